@@ -235,7 +235,7 @@ def confirm(cfg, env):
     return None
 
 
-def confirm_long(cfg, env, N=12000000):
+def confirm_long(cfg, env, N=12000000, as_rational=False):
     """Search one configuration for a concrete drift on the real code: a tone through N input frames, its phase fitted near the start, the
     middle and the end.  Returns a description (with the stream as the failing input) or None."""
     c = P.mkcfg(float(cfg["ir"]), float(cfg["or"]), int(cfg.get("recipe", 4)), int(cfg.get("qflags", 0)), 0 if (env or {}).get("SOXR_USE_SIMD") == "0" else 1)
@@ -247,6 +247,8 @@ def confirm_long(cfg, env, N=12000000):
     r = long_job({"cfg": c, "N": int(N * max(1.0, io)), "x": 0.47, "block": 1 << 16})
     if "wins" not in r:
         return None
+    if as_rational:          # the ratio is one the property wants exact: no allowance for a rounded clock
+        r = dict(r, irrational=False)
     for w in r["wins"]:
         tol = long_tolerance(r, w)
         if abs(w["dt"]) > tol:
